@@ -46,5 +46,22 @@ CHECKS.update({
           "After each mutation of a PRNG store, Exists for live/deleted/unknown ids, List with limits around n, Search{Running} and PRNG multi-valued filters are compared (ordered) with a reference filter over the model; every stream is drained behind a watchdog.",
           STORE_NOTE + " For cosmosdb the status/group/order semantics are decided on the emitted query text under our reading of Cosmos SQL.", "DESIGN.md §C15"),
 })
+
+CRASH_NOTE = ("Crash model: process death; the durable state after a crash is a prefix of the committed write sequence "
+              "(sqlite, each update its own auto-commit), replayed with the repository's own WithCapture facility. sqlite only.")
+CHECKS.update({
+ "C09": c("fault_enumeration", "fault enumeration by write-prefix replay + plugin-invocation monitor in the recovering Workstream",
+          "For every explored plan EVERY prefix of its committed write sequence is restored into a fresh store and a normal Workstream recovers on it; the plugin log of the recovering process is checked against the durable snapshot: no invocation for actions with a durable successful result nor inside durably finished sequences/blocks/plans. A sampled share of crash points is followed by every second crash during recovery.",
+          CRASH_NOTE, "DESIGN.md §C09"),
+ "C10": c("fault_enumeration", "fault enumeration by write-prefix replay (single and double crash) + termination watchdog, consistency, deferred-check and outcome-equality oracles",
+          "Same executions as C09: recovery must return within the watchdog, the final plan obeys the consistency rules of an uninterrupted run (nothing Running, reason truthful), deferred checks of entered scopes have run, durably terminal crash states hold nothing Running, and when outcomes are a function of the action alone the plan status equals the uninterrupted one (cross-checked by an evaluator of the scripts).",
+          CRASH_NOTE + " Termination is bounded progress against a 15 s watchdog.", "DESIGN.md §C10"),
+ "C12": c("exploration", "runtime monitor over recorded API histories (call/return events) + plugin invocation counts; process liveness per child",
+          "Racing, repeated, late and stale Start calls and PRNG concurrent programs over Submit/Start/Wait/Status/Plan on known, unknown, nil and deleted ids, in separate child processes: the child must survive, every action runs at most once (exactly once if a Start succeeded), later Starts are rejected without writes or invocations.",
+          ENGINE_NOTE, "DESIGN.md §C12"),
+ "C16": c("exploration", "runtime reference-validator monitor: Submit result vs an independent validator on mutated plans; raw-store and stored-plan inspection",
+          "Valid PRNG plans with 0-3 structural mutations (blank names, dropped children, pre-set engine fields, duplicate/v4 keys, timeout boundary values, unknown plugin, wrong request type, nil entries, nil plan): Submit accepts iff an independent validator written from the statement accepts, never panics, rejects leave the raw store unchanged, accepted plans get fresh distinct v7 ids, pristine state, submit time and the submitted definition; Start refuses check actions with non-check plugins.",
+          "Trusted base: the independent validator follows the property statement; values on which the statement is silent are not generated.", "DESIGN.md §C16"),
+})
 BUILT = set(CHECKS)
 NOT_APPLICABLE = {f"C{i:02d}": "check under construction in this round (runtime monitor designed in DESIGN.md, not yet registered)" for i in range(1, 21) if f"C{i:02d}" not in BUILT}
